@@ -57,19 +57,23 @@ def cfgOf (toks : List String) : Option (List (String × String)) :=
     | _ => none
 
 /-- ops:
-    `glue <stop|-> <ev>*`      → callbacks of InteractiveSeq + whether Go would panic
+    `glue <stop|-> f:<err>:<open>:<lit> <ev>*` → callbacks of InteractiveSeq (final parser state first) + whether Go would panic
     `specran <ev>*`            → the property: the statements that must have been run (all of them)
     `axioms <ev>*`             → the trace hypotheses A0 A1 A2 evaluated on the trace
+    `a3 <stop|-> <ev>*`        → trace hypothesis A3: no Read after the stop made Read return EOF
     `seq <stop|-> <hdocErr> <step>*` → yields of StmtsSeq
     `specseq <hdocErr> <step>*`      → the property: what Parse returns (statement ids, error)
     `psnap <P|Q> <field=value>*`     → expected field values after reset() (from the regenerated table)
     `fields <P|Q>`                   → regenerated field list -/
 def handle (args : List String) : String :=
   match args with
-  | "glue" :: stop :: evs =>
-    match stopOf stop, evs.mapM evOf with
-    | some st, some tr => showG (run st tr)
-    | _, _ => "bad-op"
+  | "glue" :: stop :: fin :: evs =>
+    match stopOf stop, fin.splitOn ":", evs.mapM evOf with
+    | some st, ["f", e, o, l], some tr =>
+      match bool? e, o.toNat?, l.toNat? with
+      | some e, some o, some l => showG (runAll st tr e o l)
+      | _, _, _ => "bad-op"
+    | _, _, _ => "bad-op"
   | "specran" :: evs =>
     match evs.mapM evOf with
     | some tr => showNats (allStmts tr)
@@ -78,6 +82,10 @@ def handle (args : List String) : String :=
     match evs.mapM evOf with
     | some tr => "A0=" ++ b2s (checkA0 tr) ++ " A1=" ++ b2s (checkA1 none tr) ++ " A2=" ++ b2s (checkA2 tr)
     | none => "bad-op"
+  | "a3" :: stop :: evs =>
+    match stopOf stop, evs.mapM evOf with
+    | some st, some tr => "A3=" ++ b2s (noReadAfterStop st {} tr)
+    | _, _ => "bad-op"
   | "seq" :: stop :: h :: steps =>
     match stopOf stop, bool? h, steps.mapM stepOf with
     | some st, some h, some ss =>
